@@ -135,7 +135,7 @@ def run_logger_live(binary, workdir, bursts, wait_s=4.0):
 
 
 def run(res, args):
-    res.rule = ("the built rtcmlogger binary: stdin fed through a pipe (empty, 1 B, 8095, 8096, 8097, 20 000, 100 000 random bytes, "
+    res.rule = ("the built rtcmlogger binary: stdin fed through a pipe (empty, 1 B, 8095, 8096, 8097, 20 000, 100 000 random bytes, 6 MB and more, "
                 "RTCM streams) with chunk sizes 1..65536 and pauses 0/1/5 ms, stdout captured, the day's record file read after the "
                 "process has exited; every case repeated to sample the exit race; live streams (bursts, also of exact multiples of the 8096-byte block, with the input open and idle in between: what was fed must have come out within 4 s of silence); plus the repository's start() in-process (go test "
                 "-overlay; newLogWriter replaced) built with -race, with inputs up to 1.5 MB, a record writer that stalls, and input that keeps arriving for more than two seconds (a slow disk: the "
@@ -166,6 +166,10 @@ def run(res, args):
             if sz <= 100:
                 chunks = rng.choice([[1], [7], [100]])
             jobs.append((data, chunks, rng.choice([0, 0, 1, 5]) if sz <= 20000 else 0, "random%d" % sz))
+    # a long run: several megabytes (whatever the program does only after a while - a garbage collection, a buffer
+    # that fills, a counter that wraps - happens while data flows)
+    for sz in ([6000000] if res.tier == "quick" else [6000000, 12000000, 25000000]):
+        jobs.append((gen.rand_bytes(rng, 1000) * (sz // 1000), [65536], 0, "long-run-%dMB" % (sz // 1000000)))
     for _ in range(reps):
         s = b"".join(gen.rand_frame(rng, small=False) for _ in range(rng.randint(5, 40)))
         jobs.append((s, [rng.choice([1, 64, 8096, 65536])] if len(s) < 3000 else [8096], 0, "rtcm"))
